@@ -10,7 +10,8 @@ Technique: complete enumeration on the real code (E1) + fault enumeration.
   3. corruption_* : base PDUs x ALL error patterns of weight <= 2 (quick) / <= 3 (thorough) and ALL bursts no longer
      than the check field, over all PDU bits.  Exact oracle: the pattern is guaranteed detectable iff its polynomial
      (PDU bit -> codeword exponent map transcribed here) is not a multiple of the generator; then the parse must
-     raise, report the indicator False, or re-serialise to exactly the original PDU (error confined to ignored bits).
+     raise or report the indicator False; the only exemption is an error confined to reserved (constant) bits of the
+     layout that the parser ignores, when the parsed PDU re-serialises to exactly the original.
   4. crc9_last_block_crc32_single_bit : confirmed last blocks whose CRC-32 field has weight 1, all 2^9 low-order data
      values: the single-bit error that zeroes the CRC-32 field
   5. hrnp_corruption : all single-bit errors and single aligned 16-bit word errors (the sum's own guarantee)
@@ -498,6 +499,7 @@ def w_sweep(task):
     n = len(base)
     syn = p.syn
     crc_pos = p.crc_pos
+    owner = kind.owner
     acc = Acc()
     is_last = name.endswith("confirmed_last")
 
@@ -546,25 +548,31 @@ def w_sweep(task):
                     same = False
                 if not pat:
                     outc = "clean_ok"
-                elif same:
-                    outc = "accepted_original_fields"
                 elif sy == 0:
                     outc = "accepted_pattern_is_a_codeword"      # outside every CRC's capability: no demand
+                elif same and all(owner[q] == "<reserved>" for q in pat):
+                    outc = "accepted_error_confined_to_ignored_reserved_bits"
                 else:
                     field_zero = all(cs[i] == "0" for i in crc_pos)
-                    case = {"kind": name, "base": blabel, "bits": base, "flipped": list(pat), "received": cs}
+                    case = {"kind": name, "base": blabel, "bits": base, "flipped": list(pat), "received": cs,
+                            "fields_after_parse": "original" if same else "altered"}
                     if not clean_accepted:
                         acc.violation("corrupted_pdu_accepted_while_uncorrupted_pdu_is_rejected", case,
-                                      "the library's own un-corrupted PDU is reported invalid, yet this corruption of it is accepted with altered field values")
+                                      "the library's own un-corrupted PDU is reported invalid, yet this corruption of it is accepted")
                     elif field_zero:
-                        acc.violation("zero_check_field_accepted_with_altered_fields", case,
-                                      "a corruption that leaves the received check field all-zero is accepted (indicator True) with altered field values")
+                        acc.violation("corrupted_pdu_with_zero_check_field_accepted", case,
+                                      "a corruption that leaves the received check field all-zero is accepted (indicator True): the zero "
+                                      "field is taken as 'please generate'")
+                    elif same:
+                        acc.violation("accepted_error_in_bits_lost_on_reserialisation", case,
+                                      "an error in bits that carry a field in the layout, but that the library drops when it re-serialises, "
+                                      "is accepted (the verdict is computed over the re-serialised fields)")
                     elif is_last and cs[-32:] == "0" * 32:
                         acc.violation("zero_crc32_field_left_out_of_crc9", case,
                                       "a corruption that zeroes the last block's CRC-32 field is accepted: the field is left out of the CRC-9 when it is 0")
                     else:
                         acc.violation("undetected_corruption", case,
-                                      "a corruption within the CRC's guaranteed detection capability is accepted (indicator True) with altered field values")
+                                      "a corruption within the CRC's guaranteed detection capability is accepted (indicator True)")
                     outc = "VIOLATION"
         if not pat and outc != "clean_ok":
             outc = "clean_" + outc
@@ -685,12 +693,11 @@ def w_hrnp_corrupt(task):
                 ok = bool(o.checksum_correct)
                 if not ok:
                     out = "indicator_false"
-                elif hrnp_fields(o) == of:
-                    out = "accepted_original_fields"
                 else:
                     out = "VIOLATION"
-                    acc.violation("undetected_corruption", {**case, "received": bytes(b).hex()},
-                                  "single-word corruption accepted (checksum_correct True) with altered field values")
+                    acc.violation("undetected_corruption",
+                                  {**case, "received": bytes(b).hex(), "fields_after_parse": "original" if hrnp_fields(o) == of else "altered"},
+                                  "single-word corruption of a received packet is accepted (checksum_correct True)")
             except Exception as e:
                 out = "decode_error"
             acc.case(nontrivial=True, calls=1, outcome=out, sample=case if (wi == 0 and x == 1 and bi == 0) else None)
@@ -851,7 +858,7 @@ def run(only=None):
     if want("hrnp_corruption"):
         s = rep.sub("hrnp_corruption",
                     "25 library-serialised HRNP packets x every aligned 16-bit word x %d xor patterns (all of weight 1 and 2, 0xFFFF, "
-                    "0x00FF, 0xFF00, 0x5555, 0xAAAA, 0x0F0F): must raise, report checksum_correct False or keep all fields; "
+                    "0x00FF, 0xFF00, 0x5555, 0xAAAA, 0x0F0F): must raise or report checksum_correct False; "
                     "0x0000<->0xFFFF word aliasing and the padding byte excluded by rule" % len(WORD_XORS))
         cat, _ = hrnp_cases()
         base_hdr = {n: HRNP_HEADER_ALPHA[n][0] for n in HRNP_HEADER_ALPHA}
